@@ -1,12 +1,14 @@
 (** C01 — Save/reload stability.  The lexeme-level inverses (strings, integers), the closed obligation that
     every shipped stringify / PartialEq is the writer-template instance of its grammar entry, and totality of
-    the scanner.  The whole-document statement  load (write M) = M  for the generic parser / writer pair is
-    tied to the code by the correspondence run and evaluated by the oracle; its general proof is the staged
-    frame lemma (see DESIGN.md, C01.6): named here as the partial theorem it currently is. *)
+    the scanner.  The whole-document statement  load (write M) = M  for the generic parser / writer pair
+    splits in two: that the parser rebuilds a value from the tokens the writer emits for it is proved here for every
+    grammar ([C01_parser_rebuilds_what_the_writer_emits]); that the tokenizer cuts the written text into exactly these
+    tokens is evaluated on every conforming block of every generated document (Run/RunRT.v). *)
 From Coq Require Import Ascii String List Bool NArith ZArith.
 From A2L Require Import Base.Res Text.Escape Text.IntText Lex.Tokenizer Gram.Spec Gram.WriterTable
      Gen.SpecShipped Gen.WriterShipped
-     Proofs.EscapeProofs Proofs.IntTextProofs Proofs.TokenizerProofs Proofs.GrammarObligations.
+     Gram.PState Gram.Parser Gram.Writer Gram.TokWriter Run.RunRT
+     Proofs.EscapeProofs Proofs.IntTextProofs Proofs.TokenizerProofs Proofs.GrammarObligations Proofs.CursorProofs Proofs.RoundTripProofs.
 Import ListNotations.
 
 (* add_quoted_string / unescape_string are inverse on every byte string *)
@@ -40,6 +42,46 @@ Theorem C01_tokenizer_total : forall fid text,
   (exists toks, tokenize_core fid text = TOk toks) \/ (exists e, tokenize_core fid text = TErr e).
 Proof. exact tokenize_core_total. Qed.
 Print Assumptions C01_tokenizer_total.
+
+(* The syntactic half of  load (write M) = M, for every grammar [S], every element type [td] and every value [v] of it
+   that meets the executable condition [confb] (no comments, include directives, A2ML or IF_DATA inside; numbers in the
+   range of their field; sequences that end where the grammar can tell).  [s] is any parser state in non-strict mode
+   over a token list of one file without comment tokens whose lines do not decrease ([Inv]); [ts] are its next tokens,
+   and their types and texts are those the writer emits for [v] ([wtoks], with the closing /end TAG of a block).  Then
+   the parser returns a value that is [v] up to layout, with the children of every tagged group in the order in which
+   they were written ([reorder]), and the cursor stands exactly behind [ts] ([adv]); nothing else of the state but the
+   log, the last position and the id counter has changed. *)
+Theorem C01_parser_rebuilds_what_the_writer_emits : forall S posrs ftab ifuel f F td v c so s ts rest nxt,
+  (f < F)%nat -> c_fileid c = O -> Inv s -> ps_ftab s = ftab ->
+  confb S posrs ftab f td v nxt = true -> ps_after s = ts ++ rest ->
+  map shape_of ts = wtoks S posrs ftab f v ++ closing (is_blockb td) (c_element c) ->
+  (is_blockb td = false -> hd_shape rest = nxt) ->
+  exists v' s', parse_ty F S ifuel td c so s = (ROk v', s') /\ adv ts s s' /\ erase v' = erase (reorder S posrs f v).
+Proof. exact frame. Qed.
+Print Assumptions C01_parser_rebuilds_what_the_writer_emits.
+
+(* non-vacuity on the shipped grammar: a document with PROJECT, MODULE, MEASUREMENT (MATRIX_DIM sequence, ANNOTATION with
+   a string sequence, ECU_ADDRESS in hex) and COMPU_VTAB (sequence of structs).  All six blocks meet [confb]; for each of
+   them the tokenizer cuts the written text into exactly [wtoks] and the conclusion of the theorem evaluates to true *)
+Definition c01_tab : list fentry :=
+  let b := list_ascii_of_string in
+  [mkFe (b "0"%string) true 0%N (b "0"%string) (b "0e0"%string) true 0%N (b "0"%string) (b "0e0"%string);
+   mkFe (b "1"%string) true 0x3FF0000000000000%N (b "1"%string) (b "1e0"%string) true 0x3FF0000000000000%N (b "1"%string) (b "1e0"%string)].
+Definition c01_text : string :=
+  "ASAP2_VERSION 1 71 /begin PROJECT p """" /begin MODULE m """" /begin MEASUREMENT a ""long"" UBYTE cm 0 0 0 1 MATRIX_DIM 2 3 /begin ANNOTATION ANNOTATION_LABEL ""x"" /begin ANNOTATION_TEXT ""l1"" ""l2"" /end ANNOTATION_TEXT /end ANNOTATION ECU_ADDRESS 0x10 /end MEASUREMENT /begin COMPU_VTAB v """" TAB_VERB 2 0 ""zero"" 1 ""one"" DEFAULT_VALUE ""d"" /end COMPU_VTAB /end MODULE /end PROJECT".
+Example C01_roundtrip_conditions_are_met :
+  match tokenize_core 0 (list_ascii_of_string c01_text) with
+  | TOk toks =>
+      match parse_file spec_shipped (init_state toks false 1 c01_tab) with
+      | (ROk v, _) =>
+          let fuel := S (S (length toks)) in
+          flat_map (fun n => match rt_block c01_tab fuel n with Some r => [(node_name n, r)] | None => [] end) (subnodes fuel v)
+      | _ => []
+      end
+  | _ => []
+  end = [("Project", (true, true)); ("Module", (true, true)); ("CompuVtab", (true, true)); ("Measurement", (true, true));
+         ("Annotation", (true, true)); ("AnnotationText", (true, true))]%string.
+Proof. vm_compute. reflexivity. Qed.
 
 (* non-vacuity / examples by computation: a string with every escape, numbers at the limits *)
 Example C01_examples :
